@@ -167,11 +167,19 @@ pub fn with_gap_inserts(src: &str, tokens: &[Token], inserts: &[(usize, String)]
 /// Line structure is preserved (line breaks carry layout intentions).
 pub fn respace_horizontal(src: &str, rng: &mut Rng) -> String {
     let tokens = scan::scan(src);
+    // the continuation lines of a block comment are positioned relative to its opener: blanks before the opener of a
+    // multi-line block comment on its own line are part of that comment's layout, not free horizontal spacing
+    let frozen_lines: Vec<(usize, usize)> = tokens
+        .iter()
+        .filter(|t| t.kind == Kind::BlockComment && src[t.start..t.end].contains('\n'))
+        .map(|t| (src[..t.start].rfind('\n').map_or(0, |n| n + 1), t.start))
+        .collect();
     let mut out = String::new();
     let mut pos = 0;
     for t in &tokens {
         let gap = &src[pos..t.start];
-        if gap.contains('\n') || pos == 0 {
+        let frozen = frozen_lines.iter().any(|(from, to)| *from <= pos && t.start <= *to);
+        if gap.contains('\n') || pos == 0 || frozen {
             out.push_str(gap);
         } else if !gap.is_empty() {
             for _ in 0..1 + rng.below(3) {
@@ -187,4 +195,105 @@ pub fn respace_horizontal(src: &str, rng: &mut Rng) -> String {
 
 pub fn is_atom(t: &Token) -> bool {
     matches!(t.kind, Kind::Upper | Kind::Lower | Kind::Ctor | Kind::Dtor | Kind::Int | Kind::Float | Kind::Str | Kind::Char)
+}
+
+/* ----------------------------- vertical layout, parentheses, puns ----------------------------- */
+
+fn gap_is_plain(gap: &str) -> bool {
+    gap.chars().all(|c| c == ' ' || c == '\t' || c == '\n')
+}
+
+/// Change the vertical layout: break lines at random token gaps, join lines at others. Gaps next to a comment are left
+/// alone (a line comment needs its line break, documentation lines attach by adjacency). Meaning-preserving.
+pub fn rebreak(src: &str, rng: &mut Rng, changes: usize) -> String {
+    let tokens = scan::scan(src);
+    if tokens.len() < 2 {
+        return src.to_string();
+    }
+    let mut picks: Vec<usize> = (0..changes).map(|_| 1 + rng.below(tokens.len() - 1)).collect();
+    picks.sort();
+    picks.dedup();
+    let mut out = String::new();
+    let mut pos = 0;
+    for (i, t) in tokens.iter().enumerate() {
+        let gap = &src[pos..t.start];
+        let near_comment = t.is_comment() || (i > 0 && tokens[i - 1].is_comment());
+        if i > 0 && picks.contains(&i) && !near_comment && gap_is_plain(gap) {
+            if gap.contains('\n') {
+                // join (keep a blank between the tokens)
+                out.push(' ');
+            } else {
+                out.push('\n');
+                for _ in 0..rng.below(9) {
+                    out.push(' ');
+                }
+            }
+        } else {
+            out.push_str(gap);
+        }
+        out.push_str(&src[t.start..t.end]);
+        pos = t.end;
+    }
+    out.push_str(&src[pos..]);
+    out
+}
+
+/// Wrap one identifier / literal token in parentheses: `x` -> `(x)`, or with a line break before the closing parenthesis
+/// (`(x⏎)`) / after the opening one when `single_line` is false. The caller must confirm that the result still parses
+/// to the same desugared term (a token in label or binder-keyword position does not).
+pub fn add_redundant_parens(src: &str, rng: &mut Rng, single_line: bool) -> Option<String> {
+    let tokens = scan::scan(src);
+    let candidates: Vec<&Token> = tokens.iter().filter(|t| matches!(t.kind, Kind::Lower | Kind::Upper | Kind::Int | Kind::Str)).collect();
+    if candidates.is_empty() {
+        return None;
+    }
+    let t = candidates[rng.below(candidates.len())];
+    let inner = &src[t.start..t.end];
+    let wrapped = if single_line {
+        match rng.below(3) {
+            | 0 => format!("({})", inner),
+            | 1 => format!("( {} )", inner),
+            | _ => format!("(({}))", inner),
+        }
+    } else {
+        match rng.below(4) {
+            | 0 => format!("({}\n)", inner),
+            | 1 => format!("(\n{})", inner),
+            | 2 => format!("(\n  {}\n)", inner),
+            | _ => format!("({}\n      )", inner),
+        }
+    };
+    Some(format!("{}{}{}", &src[..t.start], wrapped, &src[t.end..]))
+}
+
+/// Toggle one pun: `(= x` / `, = x` -> `x = x`, `x = x` -> `= x`, `/x = x` -> `/x`, `/x` (in a pattern list) -> `/x = x`.
+/// The caller must confirm that the result still parses to the same desugared term.
+pub fn toggle_pun(src: &str, rng: &mut Rng) -> Option<String> {
+    let tokens: Vec<Token> = scan::scan(src).into_iter().filter(|t| t.is_code()).collect();
+    let text = |k: usize| tokens[k].text(src);
+    let ident = |k: usize| matches!(tokens[k].kind, Kind::Lower | Kind::Upper);
+    let mut edits: Vec<(usize, usize, String)> = Vec::new();
+    for k in 0..tokens.len() {
+        // `x = x`  ->  `= x`
+        if k + 2 < tokens.len() && ident(k) && text(k + 1) == "=" && ident(k + 2) && text(k) == text(k + 2) && k >= 1 && matches!(text(k - 1), "(" | "," | "/") {
+            if text(k - 1) == "/" {
+                edits.push((tokens[k].end, tokens[k + 2].end, String::new()));
+            } else {
+                edits.push((tokens[k].start, tokens[k + 1].start, String::new()));
+            }
+        }
+        // `= x` after `(` or `,`  ->  `x = x`
+        if k >= 1 && k + 1 < tokens.len() && text(k) == "=" && matches!(text(k - 1), "(" | ",") && ident(k + 1) {
+            edits.push((tokens[k].start, tokens[k].start, format!("{} ", text(k + 1))));
+        }
+        // `/x` followed by `;` `)` `,`  ->  `/x = x`
+        if k >= 1 && k + 1 < tokens.len() && text(k - 1) == "/" && ident(k) && matches!(text(k + 1), ";" | ")" | ",") && k >= 2 && matches!(text(k - 2), "(" | ";" | ",") {
+            edits.push((tokens[k].end, tokens[k].end, format!(" = {}", text(k))));
+        }
+    }
+    if edits.is_empty() {
+        return None;
+    }
+    let (from, to, with) = edits[rng.below(edits.len())].clone();
+    Some(format!("{}{}{}", &src[..from], with, &src[to..]))
 }
